@@ -233,8 +233,80 @@ def gen_unpriv(rng):
     return {'scenario': 'unpriv_ldst', 'cores': [core], 'tests': tests, 'thumb': thumb, 'events': [], 'max_ticks': 10 ** 6, 'stop_at_done': False}
 
 
+VM_TABLES = 0x50000
+VM_WIN = 0x00100000           # VA window of five 4 KiB pages that all map the physical DATA page, each with its own AP
+VM_SEC = 0x00200000           # a 1 MiB section mapping physical 0.., with its own AP (DATA is at +0x20000 inside it)
+
+
+def vmsa_ap_abort(ap, priv, write):
+    """VMSAv7 short-descriptor access permissions AP[2:0], SCTLR.AFE=0 (ARM ARM B3.7.1); None = reserved encoding"""
+    if ap == 0:
+        return True
+    if ap == 1:
+        return not priv
+    if ap == 2:
+        return (not priv) and write
+    if ap == 3:
+        return False
+    if ap == 4:
+        return None
+    if ap == 5:
+        return (not priv) or write
+    return write                      # 6 (deprecated) and 7: read-only at any privilege
+
+
+def gen_unpriv_vmsa(rng):
+    cfg = {'arch_version': 7, 'have_security_ext': rng.random() < 0.5, 'have_virt_ext': False, 'have_lpae': False, 'memory_system_architecture': 'VMSA'}
+    thumb = rng.getrandbits(1)
+    mode = rng.choice(['svc', 'irq', 'fiq', 'abt', 'und', 'sys'] + (['mon'] if cfg['have_security_ext'] else []))
+    devices = G.std_devices(rec_data=True)
+    G.set_data(devices[2], 0, bytes(rng.getrandbits(8) for _ in range(0x400)))
+    tables = {'kind': 'ram', 'begin': VM_TABLES, 'end': VM_TABLES + 0x4000}
+    dom_code, dom_test = 0, rng.randrange(1, 16)
+    dom_kind = rng.choice(['client', 'client', 'client', 'manager'])
+
+    def small(pa, ap):
+        return (pa & 0xFFFFF000) | (ap >> 2) << 9 | (ap & 3) << 4 | 0b10
+
+    def section(pa, ap, dom):
+        return (pa & 0xFFF00000) | (ap >> 2) << 15 | (ap & 3) << 10 | dom << 5 | 0b10
+    l1 = {0: (VM_TABLES + 0x1000) | dom_code << 5 | 1, 1: (VM_TABLES + 0x1400) | dom_test << 5 | 1, 0xFFF: section(0xFFF00000, 3, dom_code)}
+    sec_ap = rng.choice([0, 1, 2, 3, 5, 6, 7])
+    l1[2] = section(0, sec_ap, dom_test)
+    for i, v in l1.items():
+        G.set_data(tables, 4 * i, v.to_bytes(4, 'little'))
+    for i in range(256):
+        G.set_data(tables, 0x1000 + 4 * i, small(i << 12, 3).to_bytes(4, 'little'))          # identity, full access: code, vectors, stacks, tables
+    aps = [rng.choice([0, 1, 2, 3, 5, 6, 7]) for _ in range(5)]
+    for j, ap in enumerate(aps):
+        G.set_data(tables, 0x1400 + 4 * j, small(G.DATA, ap).to_bytes(4, 'little'))
+    devices.append(tables)
+    tests = []
+    for _ in range(12):
+        kind = rng.choice(UNPRIV)
+        off = 8 * rng.randrange(2, 100)
+        mis = rng.choice([0, 0, 0, 1, 2, 3])
+        if rng.random() < 0.25:
+            va, ap = VM_SEC + G.DATA + off + mis, sec_ap
+        else:
+            j = rng.randrange(5)
+            va, ap = VM_WIN + 0x1000 * j + off + mis, aps[j]
+        tests.append({'kind': kind, 'rn_val': va, 'rt': rng.randrange(0, 8), 'rn': 8 + rng.randrange(0, 4), 'ap': ap})
+    dacr = 1 << (2 * dom_code) | (1 if dom_kind == 'client' else 3) << (2 * dom_test)
+    sys = {'sctlr': G.sctlr_value(m=1, a=0, u=1, te=thumb, tre=1, afe=0), 'prrr': 0x000AAAAA, 'nmrr': 0x40E040E0, 'ttbr0': VM_TABLES,       # TRE=0 ends in a declared-unimplemented hook
+           'ttbr0_64': VM_TABLES, 'ttbr1': 0, 'ttbcr': 0, 'dacr': dacr}       # (the walker reads the 64-bit TTBR0 storage)
+    cpsr = G.random_cpsr(rng, cfg, mode=mode, thumb=thumb) | 0x1C0
+    R = G.random_regfile(rng, cfg)
+    state = {'cpsr': cpsr, 'pc': G.CODE, 'sys': sys, 'R': R, 'spsr': G.random_spsrs(rng, cfg)}
+    core = {'config': cfg, 'devices': devices, 'regs': state, 'words': [], 'force': None, 'no_poke': [VM_TABLES]}
+    return {'scenario': 'unpriv_ldst', 'cores': [core], 'tests': tests, 'thumb': thumb, 'events': [], 'max_ticks': 10 ** 6, 'stop_at_done': False,
+            'vmsa': {'domain': dom_kind}}
+
+
 def gen(item, rng, tier):
-    return gen_user(rng) if item['k'] == 'user' else gen_unpriv(rng)
+    if item['k'] == 'user':
+        return gen_user(rng)
+    return gen_unpriv_vmsa(rng) if rng.random() < 0.35 else gen_unpriv(rng)
 
 
 # ------------------------------------------------------------------ execution
@@ -352,7 +424,7 @@ def run_unpriv(case):
     words = core['words']
     thumb = case['thumb']
     start = M.dump_state(arm)
-    regions = MPU.regions_from_arm(arm)
+    regions = MPU.regions_from_arm(arm) if not case.get('vmsa') else []
     mval = r.sctlr.m
     br = r.sctlr.br
     for tst in case['tests']:
@@ -374,18 +446,25 @@ def run_unpriv(case):
             b.advance()
             if b.cores[0].dead:
                 return b
-            dec, reg = MPU.decide(regions, mval, br, addr, variant == 'plain', write)
-            fault_addr = addr
-            if addr % size:
-                # an unaligned access is performed byte by byte: the first byte the model denies faults
-                for bofs in range(size):
-                    dec, reg = MPU.decide(regions, mval, br, addr + bofs, variant == 'plain', write)
-                    fault_addr = addr + bofs
-                    if dec != 'ok':
-                        break
+            vm = case.get('vmsa')
+            if vm:
+                # translation tables: every byte of the access lies in one page; the domain is client (AP checked) or manager (never checked)
+                a_ = None if vm['domain'] == 'manager' else vmsa_ap_abort(tst['ap'], variant == 'plain', write)
+                dec, reg = ('ok' if vm['domain'] == 'manager' else ('unpredictable' if a_ is None else ('perm' if a_ else 'ok'))), None
+                fault_addr = addr
+            else:
+                dec, reg = MPU.decide(regions, mval, br, addr, variant == 'plain', write)
+                fault_addr = addr
+                if addr % size:
+                    # an unaligned access is performed byte by byte: the first byte the model denies faults
+                    for bofs in range(size):
+                        dec, reg = MPU.decide(regions, mval, br, addr + bofs, variant == 'plain', write)
+                        fault_addr = addr + bofs
+                        if dec != 'ok':
+                            break
             aborted = (r.cpsr.value & 0x1F) == 0x17 and pre_mode != 0x17 or (pre_mode == 0x17 and r.pc_store_value() in (0x10, 0xFFFF0010, r.vbar.value + 16))
-            ap = (regions[reg][2] >> 8) & 7 if reg is not None else -1
-            b.cover.add('unpriv|%s|%s|ap%d|%s|%s' % (kind, variant, ap, 'w' if write else 'r', 'abort' if aborted else 'ok'))
+            ap = (regions[reg][2] >> 8) & 7 if reg is not None else (tst['ap'] if vm else -1)
+            b.cover.add('unpriv|%s|%s|%s|ap%d|%s|%s' % ('vmsa-' + vm['domain'] if vm else 'pmsa', kind, variant, ap, 'w' if write else 'r', 'abort' if aborted else 'ok'))
             b.count('fault.mpu-deny' if dec != 'ok' else 'probe.mpu-allow')
             if dec == 'unpredictable':
                 continue
@@ -411,7 +490,7 @@ def sample(case, res):
     c = case['cores'][0]
     if case['scenario'] == 'unpriv_ldst':
         return {'scenario': 'unpriv_ldst', 'config': c['config'], 'mode_cpsr': hex(c['regs']['cpsr']), 'tests': case['tests'][:4],
-                'dracrs': [hex(x) for x in c['regs']['sys']['dracrs'][:8]], 'violations': res['violations'][:2]}
+                'dracrs': [hex(x) for x in c['regs']['sys'].get('dracrs', [])[:8]], 'vmsa': case.get('vmsa'), 'violations': res['violations'][:2]}
     return {'scenario': 'user_adversary', 'config': c['config'], 'start_cpsr': hex(c['regs']['cpsr']), 'privonly': [[hex(a), hex(b)] for a, b in case['privonly']],
             'words': ['%08x' % w for w in c['words'][:12]], 'events': [{k: v for k, v in e.items() if k != 'regs'} for e in case['events'][:6]],
             'ticks': res['ticks'], 'violations': res['violations'][:2]}
